@@ -335,10 +335,17 @@ theorem TRUNC_refines (x : Dec) (nd : Num) (v : RVal) (h : TRUNC x nd = .val v) 
 /-- D38 (fixed): `TRUNC(0.29, 2) = 0.29`. -/
 example : TRUNC ⟨false, 29, -2⟩ (.int 2) = .val (.dec ⟨false, 29, -2⟩) := by decide +kernel
 
+/- Full statement (goal): `EVEN x = .val v → v.toRat = even x.toRat` for every decimal.
+   Refuted on the current code by finding D1605: for the smallest subnormal double (`5e-324`) the float
+   quotient `number / 2.` is zero, so EVEN returns 0 instead of 2 (kernel-checked below).  Proved with
+   the guard "the quotient does not underflow". -/
 /-- EVEN: the next even integer away from zero. -/
-theorem EVEN_refines (x : Dec) (v : RVal) (h : EVEN x = .val v) : v.toRat = (even x.toRat : Rat) := by
+theorem EVEN_refines_partial (x : Dec) (hu : quotientUnderflows x.mag 2 = false) (v : RVal)
+    (h : EVEN x = .val v) : v.toRat = (even x.toRat : Rat) := by
   have hm := mag_nonneg x
   unfold EVEN at h
+  rw [hu] at h
+  simp only [Bool.false_eq_true, if_false] at h
   split at h
   · rename_i hn
     have hx := (isNeg_iff x).mp hn
@@ -359,6 +366,13 @@ theorem EVEN_refines (x : Dec) (v : RVal) (h : EVEN x = .val v) : v.toRat = (eve
     have h3 : ¬ (x.toRat / 2 < 0) := not_lt.mpr (by positivity)
     simp only [RVal.toRat, Num.toRat, even, awayZ, h3, if_false]
     push_cast; ring
+
+/-- D1605, the counter-example to the unguarded statement: `EVEN(5e-324) = 0` on the model of the
+    current code, where the reference says 2. -/
+example : EVEN ⟨false, 5, -324⟩ = .val (.num (.int 0)) ∧ even (⟨false, 5, -324⟩ : Dec).toRat = 2 := by
+  decide +kernel
+/-- the guard is met by every other double, e.g. 1.5 -/
+example : quotientUnderflows (⟨false, 15, -1⟩ : Dec).mag 2 = false := by decide +kernel
 
 example : EVEN ⟨true, 15, -1⟩ = .val (.num (.int (-2))) := by decide +kernel
 example : EVEN ⟨false, 3, 0⟩ = .val (.num (.int 4)) := by decide +kernel
@@ -393,11 +407,12 @@ theorem INT_correct (x : Dec) (v : RVal) (h : INT x = .val v) :
     (∃ k : Int, v.toRat = k) ∧ v.toRat ≤ x.toRat ∧ x.toRat < v.toRat + 1 := by
   rw [INT_refines x v h]; exact ⟨⟨_, rfl⟩, (int_spec _).1, (int_spec _).2.1⟩
 
-theorem EVEN_correct (x : Dec) (v : RVal) (h : EVEN x = .val v) :
+theorem EVEN_correct_partial (x : Dec) (hu : quotientUnderflows x.mag 2 = false) (v : RVal)
+    (h : EVEN x = .val v) :
     (∃ k : Int, v.toRat = ((2 * k : Int) : Rat)) ∧
     (0 ≤ x.toRat → x.toRat ≤ v.toRat ∧ v.toRat < x.toRat + 2) ∧
     (x.toRat < 0 → v.toRat ≤ x.toRat ∧ x.toRat - 2 < v.toRat) := by
-  rw [EVEN_refines x v h]
+  rw [EVEN_refines_partial x hu v h]
   obtain ⟨⟨k, hk⟩, h2, h3⟩ := even_spec x.toRat
   exact ⟨⟨k, by rw [hk]⟩, h2, h3⟩
 
@@ -434,7 +449,12 @@ case for integer-valued significances (within 2^53) and fails for others: findin
 lives in IEEE arithmetic and cannot be stated over ideal reals.  The correspondence reports D37 by
 witness and compares it with a float-level transcription. -/
 
-theorem CEILING_refines (x s : Dec) (hq : quantExp s ≤ s.exp) (v : RVal)
+/- Full statement (goal): `CEILING x s = .val v → v.toRat = ceiling x.toRat s.toRat` (same for FLOOR)
+   for all decimals.  Refuted on the current code by finding D1605: when the float quotient
+   number / significance underflows to zero (|x/s| below 2^-1075) the code returns 0 – kernel-checked
+   counter-examples below.  Proved with the guard "the quotient does not underflow". -/
+theorem CEILING_refines_partial (x s : Dec) (hq : quantExp s ≤ s.exp)
+    (hu : quotientUnderflows x.toRat s.toRat = false) (v : RVal)
     (h : CEILING x s = .val v) : v.toRat = ceiling x.toRat s.toRat := by
   unfold CEILING at h
   split at h
@@ -445,6 +465,8 @@ theorem CEILING_refines (x s : Dec) (hq : quantExp s ≤ s.exp) (v : RVal)
   · split at h
     · cases h
     · dsimp only at h
+      rw [hu] at h
+      simp only [Bool.false_eq_true, if_false] at h
       split at h
       · cases h
       · split at h
@@ -456,8 +478,8 @@ theorem CEILING_refines (x s : Dec) (hq : quantExp s ≤ s.exp) (v : RVal)
           have hp := quantize_pad _ _ _ _ _ (by simpa [mulInt] using hq) hd
           simp only [RVal.toRat, hp, mulInt_toRat, ceiling]
 
-theorem FLOOR_refines (x s : Dec) (v : RVal) (h : FLOOR x s = .val v) :
-    v.toRat = floor x.toRat s.toRat := by
+theorem FLOOR_refines_partial (x s : Dec) (hu : quotientUnderflows x.toRat s.toRat = false) (v : RVal)
+    (h : FLOOR x s = .val v) : v.toRat = floor x.toRat s.toRat := by
   unfold FLOOR at h
   split at h
   · cases h
@@ -470,10 +492,21 @@ theorem FLOOR_refines (x s : Dec) (v : RVal) (h : FLOOR x s = .val v) :
     · split at h
       · cases h
       · dsimp only at h
+        rw [hu] at h
+        simp only [Bool.false_eq_true, if_false] at h
         split at h
         · cases h
         · have := val_inj h; subst this
           simp only [RVal.toRat, mulInt_toRat, floor]
+
+/-- D1605, counter-examples to the unguarded statements: `CEILING(1e-300, 1e300) = 0` (reference
+    1e300) and `FLOOR(-1e-300, 1e300) = 0` (reference -1e300) on the model of the current code. -/
+example : CEILING ⟨false, 1, -300⟩ ⟨false, 1, 300⟩ = .val (.dec ⟨false, 0, -1⟩) := by decide +kernel
+example : FLOOR ⟨true, 1, -300⟩ ⟨false, 1, 300⟩ = .val (.dec ⟨false, 0, 300⟩) := by decide +kernel
+example : ceiling (⟨false, 1, -300⟩ : Dec).toRat (⟨false, 1, 300⟩ : Dec).toRat ≠ 0 := by decide +kernel
+/-- the guard is met whenever number and significance are of comparable size -/
+example : quotientUnderflows (⟨false, 25, -1⟩ : Dec).toRat (⟨false, 20, -1⟩ : Dec).toRat = false := by
+  decide +kernel
 
 /-- the domain table of CEILING / FLOOR: a negative significance with a positive number, and FLOOR
     by zero, are Excel errors; an Excel error arises only there or when the quotient leaves the
@@ -510,19 +543,21 @@ theorem FLOOR_outside (x s : Dec) (h : outside .FLOOR [x.toRat, s.toRat] = true)
     unfold FLOOR; simp [hs, hsn, hx]
 
 /-- CEILING on the model: for a positive significance the least multiple not below the number … -/
-theorem CEILING_least (x s : Dec) (hq : quantExp s ≤ s.exp) (hs : 0 < s.toRat) (v : RVal)
+theorem CEILING_least_partial (x s : Dec) (hq : quantExp s ≤ s.exp)
+    (hu : quotientUnderflows x.toRat s.toRat = false) (hs : 0 < s.toRat) (v : RVal)
     (h : CEILING x s = .val v) :
     x.toRat ≤ v.toRat ∧ v.toRat < x.toRat + s.toRat ∧ (∃ k : Int, v.toRat = s.toRat * k) ∧
     ∀ k : Int, x.toRat ≤ s.toRat * k → v.toRat ≤ s.toRat * k := by
-  rw [CEILING_refines x s hq v h]
+  rw [CEILING_refines_partial x s hq hu v h]
   obtain ⟨h1, h2, h3⟩ := ceiling_pos x.toRat s.toRat hs
   exact ⟨h1, h2, ⟨_, rfl⟩, h3⟩
 
 /-- … and FLOOR the greatest multiple not above it. -/
-theorem FLOOR_greatest (x s : Dec) (hs : 0 < s.toRat) (v : RVal) (h : FLOOR x s = .val v) :
+theorem FLOOR_greatest_partial (x s : Dec) (hu : quotientUnderflows x.toRat s.toRat = false)
+    (hs : 0 < s.toRat) (v : RVal) (h : FLOOR x s = .val v) :
     v.toRat ≤ x.toRat ∧ x.toRat - s.toRat < v.toRat ∧ (∃ k : Int, v.toRat = s.toRat * k) ∧
     ∀ k : Int, s.toRat * k ≤ x.toRat → s.toRat * k ≤ v.toRat := by
-  rw [FLOOR_refines x s v h]
+  rw [FLOOR_refines_partial x s hu v h]
   obtain ⟨h1, h2, h3⟩ := floor_pos x.toRat s.toRat hs
   exact ⟨h1, h2, ⟨_, rfl⟩, h3⟩
 
@@ -837,7 +872,7 @@ theorem rounding_total (x : Dec) (nd : Num)
     · exact Or.inl ⟨_, rfl⟩
     · exact t _
   · unfold INT; split <;> exact t0 _
-  · unfold EVEN; split <;> exact Or.inl ⟨_, rfl⟩
+  · unfold EVEN; split <;> (try split) <;> exact Or.inl ⟨_, rfl⟩
 
 example : (⟨true, 123456789012345, -320⟩ : Dec).coef < 10 ^ 17 := by decide
 
@@ -870,7 +905,9 @@ theorem CEILING_outcome (x s : Dec) :
       · split
         · exact Or.inl (Or.inl ⟨_, rfl⟩)
         · generalize hm : (if (x.isNeg && s.isNeg) = true then Mode.down else Mode.up) = mode
-          rcases quantize_outcome 700 mode (mulInt s (x.toRat / s.toRat).ceil) (quantExp s) with ⟨r, hr⟩ | hr
+          rcases quantize_outcome 700 mode
+            (mulInt s (if quotientUnderflows x.toRat s.toRat = true then 0 else (x.toRat / s.toRat).ceil))
+            (quantExp s) with ⟨r, hr⟩ | hr
           · rw [hr]; exact Or.inl (Or.inl ⟨_, rfl⟩)
           · rw [hr]; exact Or.inr rfl
 
@@ -892,8 +929,13 @@ theorem CEILING_total (x s : Dec) (hq : quantExp s ≤ s.exp) (hc : s.coef < 10 
         split
         · exact Or.inl ⟨_, rfl⟩
         · generalize hm : (if (x.isNeg && s.isNeg) = true then Mode.down else Mode.up) = mode
-          have hkb := ceil_natAbs_bound x.toRat s.toRat (by simpa using hov)
-          generalize (x.toRat / s.toRat).ceil = k at hkb
+          have hkb : (if quotientUnderflows x.toRat s.toRat = true then 0
+              else (x.toRat / s.toRat).ceil).natAbs < 10 ^ 309 := by
+            split
+            · norm_num
+            · exact ceil_natAbs_bound x.toRat s.toRat (by simpa using hov)
+          generalize (if quotientUnderflows x.toRat s.toRat = true then 0
+              else (x.toRat / s.toRat).ceil) = k at hkb
           have hpad : (s.exp - quantExp s).toNat ≤ 301 := by
             rcases quantExp_ge s with h | h <;> omega
           have hd : numDigits (s.coef * k.natAbs * 10 ^ (s.exp - quantExp s).toNat) ≤ 700 := by
